@@ -2,8 +2,9 @@
 import re
 
 from tc.facts import call_names, loc
+from tc.flow import op_place
 from tc.sym import SymExec, show, show_atom, show_path
-from tc.util import agg_sites, calls_matching, cfg_of, const_strs, flow_of, where
+from tc.util import error_blocks, agg_sites, calls_matching, cfg_of, const_strs, flow_of, where
 import r_cloud
 
 SERVER = "server::types::Server"
@@ -458,6 +459,25 @@ def rule_A1_local(F, R):
             R.ok("A1", "%s runs on the caller's transaction" % e_name, where(hb))
 
 
+def rule_A1_drop(F, R):
+    R.begin("A1d", "local server: a transaction that is dropped (an error, a stop between the two writes) rolls back: nothing in server::local changes rusqlite's drop behaviour, finishes a transaction implicitly, or opens an unchecked one")
+    n = 0
+    bad = 0
+    for bp, b in F.bodies.items():
+        if "server::local" not in bp:
+            continue
+        for (i, t) in F.calls_in.get(bp, ()):
+            for n_ in call_names(t):
+                if re.search(r"Connection>?::transaction(_with_behavior)?$", n_):
+                    n += 1
+                if re.search(r"set_drop_behavior|unchecked_transaction|Transaction::<'.*>::(new_unchecked|finish)$", n_):
+                    bad += 1
+                    R.violation("A1d", F.owner(bp), "drop-behaviour-changed", "%s is used in server::local: when the second statement of add_version fails, the dropped transaction commits the first (a stored version that is not the latest: every later push is out of sync)" % n_.split("::")[-1], where(b, i))
+    if not bad:
+        R.ok("A1d", "no set_drop_behavior / unchecked_transaction / finish in server::local", None)
+    R.floor("A1d", "places in server::local that open a SQLite transaction (matcher control)", n, 1)
+
+
 def rule_GI(F, R):
     R.begin("GI", "git add_version: the version file and meta are committed before the push, and AddVersionResult::Ok is returned only when push() returned true")
     ms = impl_methods(F)
@@ -481,14 +501,38 @@ def rule_GI(F, R):
 
         def _reaches(e, rx):
             return e["callee"] in F.bodies and e["callee"].startswith("server::gitsync") and roles.cone_reaches(F, e["callee"], lambda t: any(re.search(rx, n_) for n_ in call_names(t)))
-        wfile = [e for e in p.events if e not in commit and e not in push and _reaches(e, r"^std::fs::write$")]
-        wmeta = [e for e in p.events if e not in commit and e not in push and e not in wfile and _reaches(e, r"^serde_json::(ser::)?to_writer")]
+        def write_commit_order(events, commit):
+            wfile = [e for e in events if e not in commit and e not in push and _reaches(e, r"^std::fs::write$") and not _reaches(e, r"^serde_json::(ser::)?to_writer")]
+            wmeta = [e for e in events if e not in commit and e not in push and e not in wfile and _reaches(e, r"^serde_json::(ser::)?to_writer") and not _reaches(e, r"^std::fs::write$")]
+            if not (wfile and wmeta and commit and max(wfile[0]["id"], wmeta[0]["id"]) < commit[0]["id"]):
+                return "order"
+            if not (_has(commit[0]["args"], lambda z: z[0] == "C" and z[1] == wfile[0]["id"]) and _has(commit[0]["args"], lambda z: z[0] == "C" and z[1] == wmeta[0]["id"])):
+                return "commit-content"
+            return None
+
+        # the three steps may sit in one helper of the backend: then they are checked inside it
+        comp = [e for e in p.events if e not in commit and e not in push and _reaches(e, r"^std::fs::write$") and _reaches(e, r"^serde_json::(ser::)?to_writer") and roles.cone_reaches(F, e["callee"], lambda t: any(roles.norm(n_) in committers for n_ in call_names(t)))]
         pushed_true = any(a[0] == "val" and _has(a[1], lambda z: z[0] == "C" and push and z[1] == push[0]["id"]) and o is True for (a, o, _bb) in p.atoms)
+        verdict = None
         if len(push) != 1 or not pushed_true:
+            verdict = "ok-without-push"
+        elif comp:
+            hb = F.real_body(comp[0]["callee"])
+            hp = [q for q in SymExec(hb, cfg_of(hb)).run() if q.end[0] == "return" and not (q.ret[0] == "A" and q.ret[2] == "Err") and not _has(q.ret, lambda z: z[0] == "F" and z[2] in ("Err", "Break"))]
+            if not hp or comp[0]["id"] > push[0]["id"]:
+                verdict = "order"
+            for q in hp:
+                hc = [e for e in q.events if roles.norm(e["callee"]) in committers]
+                verdict = verdict or write_commit_order(q.events, hc)
+        else:
+            verdict = write_commit_order(p.events, commit)
+            if verdict is None and not commit[0]["id"] < push[0]["id"]:
+                verdict = "order"
+        if verdict == "ok-without-push":
             R.violation("GI", b["owner_fn"], "ok-without-push", "AddVersionResult::Ok is returned on a path where push() did not return true: an acknowledged version that is not on the shared remote lets another replica give the same parent a second child", w)
-        elif not (wfile and wmeta and commit and max(wfile[0]["id"], wmeta[0]["id"]) < commit[0]["id"] < push[0]["id"]):
+        elif verdict == "order":
             R.violation("GI", b["owner_fn"], "order", "the accepted path is not: write version file, write meta, commit, push", w)
-        elif not (_has(commit[0]["args"], lambda z: z[0] == "C" and z[1] == wfile[0]["id"]) and _has(commit[0]["args"], lambda z: z[0] == "C" and z[1] == wmeta[0]["id"])):
+        elif verdict == "commit-content":
             R.violation("GI", b["owner_fn"], "commit-content", "the git commit does not contain both the version file and meta", w)
         else:
             R.ok("GI", "accept path: version file + meta -> commit -> push()==true -> Ok", w)
@@ -566,3 +610,266 @@ def rule_GC(F, R):
         R.violation("GC", ib["path"], "conditional-stray-file-clean", "a repository can be opened successfully without clean_stray_files having run: an untracked version file from an interrupted add-version stays visible as a child of the latest version", where(ib, bad[0]))
     else:
         R.ok("GC", "every successful open runs clean_stray_files", where(ib, cl[0][0]))
+
+
+def _after_try(c, i):
+    """entry of the continuation of call block i: when the call's result goes straight into
+    `?`, the Continue arm of that `?` (the call's own failure is not part of what follows it);
+    otherwise the call's normal successor"""
+    t = c.term(i)
+    succ = [j for (j, _lab) in c.succ[i]]
+    if len(succ) != 1:
+        return succ
+    j = succ[0]
+    tj = c.term(j)
+    if tj and tj["k"] == "call" and "std::ops::Try::branch" in call_names(tj) and tj["args"] and (tj["args"][0].get("m") or tj["args"][0].get("c") or {}).get("l") == t["dest"]["l"]:
+        sj = [k for (k, _lab) in c.succ[j]]
+        if len(sj) == 1 and c.term(sj[0]) and c.term(sj[0])["k"] == "switch":
+            cont = [k for (k, lab) in c.succ[sj[0]] if lab == "0"]
+            if cont:
+                return cont
+    return succ
+
+
+def rule_GC3(F, R):
+    R.begin("GC3", "git backend: whenever a Server method has reset the clone to the shared remote's state (directly or through a helper), the cached `latest version` is reloaded before the method returns, on every path; otherwise a later add_version trusts a stale cache and accepts a version whose parent is no longer the latest")
+    ms = impl_methods(F)
+    mpaths = {m_["path"] for m_ in ms.values()}
+    fetchers = {roles.norm(x) for x in roles.git_cmd_fns(F, "fetch")}
+    # the meta reloader: a gitsync method taking &mut self whose cone reads JSON (from_reader) and does not fetch
+    reloaders = set()
+    helpers = {}
+    for p, b in F.bodies.items():
+        if "gitsync" not in p or b["kind"] not in ("AssocFn", "Fn") or p in mpaths or F.owner(p) != p:
+            continue
+        helpers[roles.norm(p)] = b
+        si = b.get("sig_in") or []
+        if not si or not si[0].startswith("&mut "):
+            continue
+        if roles.cone_reaches(F, p, lambda t: any(re.search(r"^serde_json::(de::)?from_reader", n) for n in call_names(t))) and not roles.cone_reaches(F, p, lambda t: any(roles.norm(n) in fetchers for n in call_names(t))):
+            reloaders.add(roles.norm(p))
+    if not fetchers or not reloaders:
+        R.missing("GC3", "the git backend's fetch function / meta reload function")
+        return
+
+    def stale_returns(b, dirty):
+        """(call block, callee) of calls to a `dirty` function after which b can return without a reload"""
+        c = cfg_of(b)
+        rl = {i for i, t in c.calls() if any(roles.norm(n_) in reloaders for n_ in call_names(t))}
+        out, allc = [], []
+        for (i, t) in c.calls():
+            d = [roles.norm(n_) for n_ in call_names(t) if roles.norm(n_) in dirty]
+            if not d:
+                continue
+            allc.append((i, t))
+            r = set()
+            for s in _after_try(c, i):
+                if s not in rl:
+                    r |= c.reachable(s, removed=rl)
+            if any(k in r for k in c.exits()):
+                out.append((i, t))
+        return out, allc
+
+    # helpers that can return with the clone reset and the cache not reloaded (fixpoint)
+    dirty = set(fetchers)
+    changed = True
+    while changed:
+        changed = False
+        for p, b in helpers.items():
+            if p in dirty or p in reloaders:
+                continue
+            # constructors build the cache afresh after their fetch: they are checked through the reloader role below
+            if not (b.get("sig_in") or [""])[0].lstrip("&mut ").startswith("server::gitsync::GitSyncServer"):
+                continue
+            if stale_returns(b, dirty)[0]:
+                dirty.add(p)
+                changed = True
+    R.info("GC3", "functions that can return with the clone reset to the remote and the cache not reloaded: %s" % ", ".join(sorted(dirty)))
+    n = 0
+    for (be, name), b in sorted(ms.items()):
+        if be != "git":
+            continue
+        bad, allc = stale_returns(b, dirty)
+        badi = {i for i, _t in bad}
+        for (i, t) in allc:
+            n += 1
+            if i in badi:
+                R.violation("GC3", b["owner_fn"], "fetch-without-meta-reload:" + roles.norm(t.get("callee") or "").split("::")[-1], "%s resets the clone to the remote at %s and can return without reloading the cached latest version: a later add_version on the now stale latest is accepted and gives that parent a second child" % (name, loc(t["sp"])), where(b, i))
+            else:
+                R.ok("GC3", "%s: reset-to-remote followed by meta reload on every path" % name, where(b, i))
+    R.floor("GC3", "reset-to-remote sites in the git backend's Server methods", n, 6)
+
+
+def _result_arms(c, i):
+    """(ok targets, err targets) of the first test of the Result returned by call block i:
+    through `?` (Try::branch: Continue / Break) or a direct match on its discriminant"""
+    t = c.term(i)
+    d = t["dest"]["l"]
+    j = i
+    for _ in range(6):
+        succ = [k for (k, _lab) in c.succ[j]]
+        if len(succ) != 1:
+            return None
+        j = succ[0]
+        tj = c.term(j)
+        if tj is None:
+            return None
+        if tj["k"] == "call":
+            if "std::ops::Try::branch" in call_names(tj) and tj["args"] and (op_place(tj["args"][0]) or {}).get("l") == d:
+                sj = [k for (k, _lab) in c.succ[j]]
+                if len(sj) == 1 and c.term(sj[0]) and c.term(sj[0])["k"] == "switch":
+                    s = sj[0]
+                    return ([k for (k, lab) in c.succ[s] if lab == "0"], [k for (k, lab) in c.succ[s] if lab != "0"])
+            return None
+        if tj["k"] == "switch":
+            # direct match: the switch operand must be the discriminant of the call's destination
+            ok_ = any(st["k"] == "assign" and st["r"]["k"] == "discr" and st["r"]["p"]["l"] == d for st in c.blocks[j]["s"])
+            if not ok_:
+                return None
+            labs = c.succ[j]
+            explicit = {lab for (_k, lab) in labs if lab not in ("otherwise",)}
+            okt, ert = [], []
+            for (k, lab) in labs:
+                if lab == "0":
+                    okt.append(k)
+                elif lab == "1":
+                    ert.append(k)
+                elif lab == "otherwise":
+                    if explicit == {"1"}:
+                        okt.append(k)
+                    elif explicit == {"0"}:
+                        ert.append(k)
+            return (okt, ert)
+    return None
+
+
+def rule_GC4(F, R):
+    R.begin("GC4", "git backend, failed or interrupted add_version: (a) opening a repository goes back to the last commit (reset --hard) before the cached metadata is read, so a `meta` modified by an interrupted write is not believed; (b) when a step between writing the version file and the commit fails, add_version discards the uncommitted files and reloads the metadata before returning the error, so the failed version is neither served as a child nor named as the latest")
+    hard = {roles.norm(x) for x in roles.git_cmd_fns(F, "--hard")}
+    fetchers = {roles.norm(x) for x in roles.git_cmd_fns(F, "fetch")}
+    discarders = hard - fetchers
+    loaders = set()
+    for p, b in F.bodies.items():
+        if "gitsync" in p and b["kind"] in ("Fn", "AssocFn") and any(any(re.search(r"^serde_json::(de::)?from_reader", n) for n in call_names(t)) for (_i, t) in F.calls_in.get(p, ())) and "Meta" in (b.get("sig_out") or ""):
+            loaders.add(roles.norm(p))
+    # (a) the open path
+    ib = None
+    for q in F.reachable_from(["server::gitsync::GitSyncServer::new"]):
+        qb = F.bodies[q]
+        if "gitsync" in q and F.owner(q) == q and any(any(roles.norm(n_) in loaders for n_ in call_names(t)) for (_i, t) in cfg_of(qb).calls()) and (qb.get("sig_in") or [""])[0].find("&mut server::gitsync::GitSyncServer") < 0:
+            ib = qb
+    if ib is None or not loaders:
+        R.missing("GC4", "the function on the open path of the git backend that loads the metadata file")
+    else:
+        c = cfg_of(ib)
+        ld = [(i, t) for i, t in c.calls() if any(roles.norm(n_) in loaders for n_ in call_names(t))]
+        dc = [i for i, t in c.calls() if any(_cone_has(F, n_, discarders | fetchers) for n_ in call_names(t))]
+        for (i, t) in ld:
+            if any(c.dominates(k, i) for k in dc):
+                R.ok("GC4", "open: the working tree is reset to the last commit before meta is loaded", where(ib, i))
+            else:
+                R.violation("GC4", ib["path"], "open-trusts-uncommitted-meta", "opening a repository reads `meta` from the working tree without first going back to the last commit: after an add_version interrupted between writing meta and committing, the reopened backend names a latest version whose file was cleaned away, and every replica is out of sync for good", where(ib, i))
+    # (b) the failure paths of add_version
+    ms = impl_methods(F)
+    b = ms.get(("git", "add_version"))
+    if b is None:
+        R.missing("GC4", "git add_version")
+        return
+
+    memo = {}
+
+    def writes_tree(fn):
+        fn = roles.norm(fn)
+        if fn not in F.bodies or "gitsync" not in fn:
+            return False
+        return roles.cone_reaches(F, fn, lambda t: any(re.search(r"^std::fs::write$|std::fs::File::create|^serde_json::(ser::)?to_writer", n) for n in call_names(t))) or any(roles.norm(x) in {roles.norm(y) for y in roles.git_cmd_fns(F, "add")} for x in F.reachable_from([fn]))
+
+    def commits(fn, depth=0):
+        """every successful return of fn has passed `git commit`"""
+        fn = roles.norm(fn)
+        if fn in memo:
+            return memo[fn]
+        memo[fn] = False
+        fb = F.real_body(fn) if fn in F.bodies else None
+        if fb is None or "gitsync" not in fn or depth > 4:
+            return False
+        fc = cfg_of(fb)
+        cm = set()
+        for (i, t) in fc.calls():
+            if any(a.get("k", {}).get("repr", "").strip('"') == "commit" for a in t["args"] if "k" in a) or any(commits(n, depth + 1) for n in call_names(t) if roles.norm(n) in F.bodies and roles.norm(n) != fn):
+                cm.add(i)
+        lits = "commit" in roles.body_literals(F, fb, depth=0)
+        if lits and not cm:
+            # the literal is in an argument array built separately: find the command call
+            cm = {i for (i, t) in fc.calls() if any("Git::cmd" in n for n in call_names(t))}
+        if not cm:
+            return False
+        r = fc.reachable(0, removed=cm | error_blocks(fc))
+        res = not any(k in r for k in fc.exits())
+        memo[fn] = res
+        return res
+
+    c = cfg_of(b)
+    dsc = {i for i, t in c.calls() if any(_cone_has(F, n_, discarders) for n_ in call_names(t))}
+    rld = {i for i, t in c.calls() if any(roles.norm(n_).endswith("read_meta") or _cone_has(F, n_, loaders) for n_ in call_names(t))}
+    n = 0
+    for (i, t) in c.calls():
+        names = [roles.norm(x) for x in call_names(t)]
+        if not any(writes_tree(x) for x in names) or any(_cone_has(F, x, discarders | fetchers) for x in names):
+            continue
+        n += 1
+        arms = _result_arms(c, i)
+        nm = names[0].split("::")[-1]
+        if arms is None:
+            R.violation("GC4", b["owner_fn"], "write-step-result-untested:" + nm, "the result of %s (a step that writes the working tree) is not tested" % nm, where(b, i))
+            continue
+        okt, ert = arms
+        start = list(ert)
+        if not any(commits(x) for x in names):
+            start += list(okt)
+        # a later step that commits ends the dirty region on its success arm
+        cut_edges = set()
+        for (j, tj) in c.calls():
+            if any(commits(x) for x in call_names(tj)):
+                a2 = _result_arms(c, j)
+                if a2:
+                    for k in a2[0]:
+                        for (pk, lab) in [(pp, ll) for pp in c.reach for (kk, ll) in c.succ[pp] if kk == k]:
+                            cut_edges.add((pk, k))
+        bad = False
+        for s in start:
+            if s in dsc:
+                continue
+            r = c.reachable(s, removed=dsc, removed_edges=cut_edges)
+            if any(k in r for k in c.exits()):
+                bad = True
+        if bad:
+            R.violation("GC4", b["owner_fn"], "failed-add-leaves-uncommitted-files:" + nm, "after %s add_version can return with the version file or the changed meta still uncommitted in the working tree (and the cached latest already advanced): the same handle then serves the failed version as a child although it is not in the chain, and a reopened local repository names a latest version that does not exist" % nm, where(b, i))
+        else:
+            R.ok("GC4", "add_version: a failure after %s discards the uncommitted files" % nm, where(b, i))
+    R.floor("GC4", "steps of git add_version that write the working tree", n, 1)
+    # after discarding, the cached metadata is reloaded
+    for i in dsc:
+        r = set()
+        for (s, _lab) in c.succ[i]:
+            if s not in rld:
+                r |= c.reachable(s, removed=rld)
+        arms = _result_arms(c, i)
+        if arms:
+            r = set()
+            for s in arms[0]:
+                if s not in rld:
+                    r |= c.reachable(s, removed=rld)
+        if any(k in r for k in c.exits()):
+            R.violation("GC4", b["owner_fn"], "discard-without-meta-reload", "add_version discards the uncommitted files but keeps the advanced cached latest version", where(b, i))
+        else:
+            R.ok("GC4", "add_version: discard followed by meta reload", where(b, i))
+
+
+def _cone_has(F, fn, targets):
+    fn = roles.norm(fn)
+    if fn in targets:
+        return True
+    if fn not in F.bodies or "gitsync" not in fn:
+        return False
+    return any(roles.norm(x) in targets for x in F.reachable_from([fn]))
